@@ -54,6 +54,9 @@ def oracle_pool(line, go):
                     return "pool: pickConn handed out a connection that was not in the list (%s)" % cid
                 if dials:
                     return "pool: pickConn dialed although it returned an existing connection"
+        if ev[0] == "E" and dials and ev[1:].split(",")[0] not in prev_list:
+            # onConnectionDropped replaces only a connection it finds in the list (Pool_callback_once, pl_on_dropped)
+            return "pool: the onDisconnect callback of a connection that was not in the list dialed (%s: %s)" % (ev, rec)
         prev_list = lst
         client_closed = cl == "1"
     return None
